@@ -25,7 +25,7 @@ Theorem C15_at_most_once : forall nw maxq progs s, preach nw maxq (pinit nw prog
   count_occ Nat.eq_dec (accepted (evs s)) k =
     count_occ Nat.eq_dec (started (evs s)) k + count_occ Nat.eq_dec (inhand (pcs s)) k +
     count_occ Nat.eq_dec (queue (shared (mon s))) k.
-Proof. intros nw maxq progs s Hr k. split; [exact (at_most_once nw maxq progs s Hr k)|exact (accounting nw maxq progs s Hr k)]. Qed.
+Proof. exact at_most_once_full. Qed.
 Print Assumptions C15_at_most_once.
 
 (* Every run(k) call of every client program is decided exactly once - accepted, rejected because
@@ -87,11 +87,12 @@ Proof. exact bounded. Qed.
 Print Assumptions C15_bounded.
 
 (* nobody is left waiting: in a state in which nothing but a spurious wake-up can happen, every
-   thread has returned / finished its program, or is a worker blocked in take() on an empty queue
-   of a running pool, or a client blocked in run() on a full queue of a running pool *)
+   thread has returned / finished its program (or was aborted by the assertion of Thread::join, which
+   needs a second stop(): C15_second_stop), or is a worker blocked in take() on an empty queue of a
+   running pool, or a client blocked in run() on a full queue of a running pool *)
 Theorem C15_quiescent_shape : forall nw maxq progs s, preach nw maxq (pinit nw progs) s -> pquiescent nw maxq s ->
   forall t p th, nth_error (pcs s) t = Some p -> nth_error (threads (mon s)) t = Some th ->
-    p = WDone \/ p = CIdle [] \/
+    p = WDone \/ p = CIdle [] \/ (exists ops, p = CFault ops) \/
     (p = WTake /\ st th = Waiting notEmpty /\ queue (shared (mon s)) = [] /\ running (shared (mon s)) = true) \/
     (exists ops, p = CCall ops /\ st th = Waiting notFull /\ isFull maxq (queue (shared (mon s))) = true /\
                  running (shared (mon s)) = true).
@@ -112,19 +113,59 @@ Print Assumptions C15_quiescence_reached.
    blocked on a full queue have been released, and nobody blocks again; (2) EVERY continuation,
    whatever the schedule, has at most [pmeasure nw s] steps; (3) a continuation that cannot be
    extended ends with every worker returned from runInThread (also those that were in the middle of
-   a task), every client at the end of its program and every stop() returned; (4) such a
-   continuation exists. *)
+   a task), every client at the end of its program and every stop() returned - the alternatives
+   `CFault` / `EvFault` (abort in Thread::join) arise only if stop() is called more than once, see
+   C15_second_stop; (4) such a continuation exists. *)
 Theorem C15_stop_terminates : forall nw maxq progs s, preach nw maxq (pinit nw progs) s ->
   running (shared (mon s)) = false ->
   (forall t th c, nth_error (threads (mon s)) t = Some th -> st th <> Waiting c) /\
   (forall ls s', prun nw maxq s ls = Some s' -> length ls <= pmeasure nw s) /\
   (forall ls s', prun nw maxq s ls = Some s' -> (forall l, pstep nw maxq s' l = None) ->
      (forall t, t < nw -> pc_at s' t = Some WDone) /\
-     (forall t p, nw <= t -> pc_at s' t = Some p -> p = CIdle []) /\
-     (forall t, In (EvStopSec t) (evs s') -> In (EvStopRet t) (evs s'))) /\
+     (forall t p, nw <= t -> pc_at s' t = Some p -> p = CIdle [] \/ exists ops, p = CFault ops) /\
+     (forall t, In (EvStopSec t) (evs s') -> In (EvStopRet t) (evs s') \/ exists i, In (EvFault t i) (evs s'))) /\
   (exists ls s', prun nw maxq s ls = Some s' /\ forall l, pstep nw maxq s' l = None).
 Proof. exact stop_terminates. Qed.
 Print Assumptions C15_stop_terminates.
+
+(* A second stop() is an explicit state of the model: joining a worker that has been joined before
+   is the assertion failure of muduo::Thread::join (`assert(!joined_)`), modelled as the absorbing
+   control state CFault with the event EvFault.  If the client programs contain at most one stop()
+   in total, no fault is reachable: no EvFault is ever logged and no client is ever at CFault - so
+   with the documented use the disjuncts `CFault` of the theorems above are empty. *)
+Theorem C15_second_stop : forall nw maxq progs s, preach nw maxq (pinit nw progs) s -> total_stops progs <= 1 ->
+  (forall x, In x (evs s) -> is_fault x = false) /\ (forall t ops, pc_at s t <> Some (CFault ops)).
+Proof. exact single_stop_no_fault. Qed.
+Print Assumptions C15_second_stop.
+
+(* The thread-init callback (`if (threadInitCallback_) threadInitCallback_();` at the top of
+   runInThread) is an explicit step of every worker: it happens at most once per worker, a worker that
+   has left the initial state has passed it, and whoever popped or started a task has passed it
+   before (the statement holds in every reachable state, i.e. for every prefix of the log). *)
+Theorem C15_init_callback : forall nw maxq progs s, preach nw maxq (pinit nw progs) s ->
+  (forall t, count_occ Nat.eq_dec (inits (evs s)) t <= 1) /\
+  (forall t, pc_at s t = Some WInit -> ~ In (EvInit t) (evs s)) /\
+  (forall t p, pc_at s t = Some p -> t < nw -> p <> WInit -> In (EvInit t) (evs s)) /\
+  (forall t k, In (EvTake t k) (evs s) -> In (EvInit t) (evs s)) /\
+  (forall t k, In (EvStart t k) (evs s) -> In (EvInit t) (evs s)).
+Proof. exact init_callback. Qed.
+Print Assumptions C15_init_callback.
+
+(* Per client, in program order: client number c (thread nw + c) has had the run() calls of its
+   program decided one after the other - accepted, rejected (pool stopped) or run inline - so that
+   program = decided so far ++ call in progress ++ calls still to come; for a pool without
+   threads: every run(k) was executed inline by the caller, in program order. *)
+Theorem C15_client_program_order : forall nw maxq progs s c p th, preach nw maxq (pinit nw progs) s ->
+  nth_error (pcs s) (nw + c) = Some p -> nth_error (threads (mon s)) (nw + c) = Some th ->
+  runs_of (nth c progs []) = decided_by (nw + c) (evs s) ++ prog_runs th ++ runs_of (pc_ops p).
+Proof. exact client_program_order. Qed.
+Print Assumptions C15_client_program_order.
+
+Theorem C15_inline_program_order : forall nw maxq progs s c p, preach nw maxq (pinit nw progs) s -> nw = 0 ->
+  nth_error (pcs s) c = Some p ->
+  runs_of (nth c progs []) = decided_by c (evs s) ++ runs_of (pc_ops p).
+Proof. exact inline_program_order. Qed.
+Print Assumptions C15_inline_program_order.
 
 (* after stop() has returned no queued task starts (nothing is popped, started or accepted after
    the first EvStopRet), and by then every worker has returned *)
@@ -168,7 +209,7 @@ Example C15_ex_run :
 Proof.
   eexists. split.
   - eapply preach_prun; [apply preach_refl|].
-    instantiate (2 := [LLoad 0; LMon (LAcquire 0); LMon (LBody 0 []);
+    instantiate (2 := [LInit 0; LLoad 0; LMon (LAcquire 0); LMon (LBody 0 []);
                        LNext 1; LMon (LAcquire 1); LMon (LBody 1 [0]);
                        LNext 1; LMon (LAcquire 1); LMon (LBody 1 []);
                        LMon (LReacquire 0); LMon (LBody 0 []); LExec 0;
@@ -191,7 +232,7 @@ Proof.
   - eapply preach_prun; [apply preach_refl|].
     instantiate (2 := [LNext 1; LMon (LAcquire 1); LMon (LBody 1 []);
                        LNext 1; LMon (LAcquire 1); LMon (LBody 1 []);
-                       LLoad 0; LMon (LAcquire 0); LMon (LBody 0 []);
+                       LInit 0; LLoad 0; LMon (LAcquire 0); LMon (LBody 0 []);
                        LNext 1; LMon (LAcquire 1); LMon (LBody 1 []);
                        LExec 0; LLoad 0; LJoin 1; LJoin 1;
                        LNext 1; LMon (LAcquire 1); LMon (LBody 1 [])]).
@@ -199,7 +240,7 @@ Proof.
   - vm_compute. reflexivity.
   - vm_compute. reflexivity.
   - vm_compute. reflexivity.
-  - intros l. destruct l as [[t|t p|t|t]|t|t|t|t]; destruct t as [|[|t]]; vm_compute; try reflexivity;
+  - intros l. destruct l as [[t|t p|t|t]|t|t|t|t|t]; destruct t as [|[|t]]; vm_compute; try reflexivity;
       destruct t; reflexivity.
 Qed.
 
@@ -209,7 +250,7 @@ Example C15_ex_quiescent_idle_worker :
   exists s, preach 1 0 (pinit 1 [[]]) s /\ pquiescent 1 0 s /\
             nth_error (pcs s) 0 = Some WTake /\ exists th, nth_error (threads (mon s)) 0 = Some th /\ st th = Waiting notEmpty.
 Proof.
-  assert (H : exists s, prun 1 0 (pinit 1 [[]]) [LLoad 0; LMon (LAcquire 0); LMon (LBody 0 [])] = Some s /\
+  assert (H : exists s, prun 1 0 (pinit 1 [[]]) [LInit 0; LLoad 0; LMon (LAcquire 0); LMon (LBody 0 [])] = Some s /\
                         psome_move 1 0 s = None /\ nth_error (pcs s) 0 = Some WTake /\
                         exists th, nth_error (threads (mon s)) 0 = Some th /\ st th = Waiting notEmpty).
   { eexists. split; [vm_compute; reflexivity|]. split; [vm_compute; reflexivity|]. split; [vm_compute; reflexivity|].
@@ -250,3 +291,30 @@ Example C15_ex_generated_guards :
   gen_take_waits true true = true /\ gen_take_waits true false = false /\
   gen_run_waits true false = false /\ gen_run_rejects false = true.
 Proof. vm_compute. auto 10. Qed.
+
+(* a second stop(): the assertion of Thread::join is reachable (the hypothesis of C15_second_stop
+   cannot be dropped); with one worker, client 1 calls stop() twice *)
+Example C15_ex_second_stop_faults :
+  exists s, preach 1 0 (pinit 1 [[UStop; UStop]]) s /\ total_stops [[UStop; UStop]] = 2 /\
+            In (EvFault 1 0) (evs s) /\ pc_at s 1 = Some (CFault []).
+Proof.
+  eexists. split; [|split; [|split]].
+  - eapply preach_prun; [apply preach_refl|].
+    instantiate (2 := [LInit 0; LNext 1; LMon (LAcquire 1); LMon (LBody 1 []); LLoad 0; LJoin 1; LJoin 1;
+                       LNext 1; LMon (LAcquire 1); LMon (LBody 1 []); LJoin 1]).
+    vm_compute. reflexivity.
+  - reflexivity.
+  - vm_compute. auto 10.
+  - vm_compute. reflexivity.
+Qed.
+
+(* the init callback precedes the first take *)
+Example C15_ex_init_then_take :
+  exists s, preach 1 0 (pinit 1 [[URun 7]]) s /\ evs s = [EvInit 0; EvAccept 1 7; EvTake 0 7; EvStart 0 7].
+Proof.
+  eexists. split.
+  - eapply preach_prun; [apply preach_refl|].
+    instantiate (2 := [LInit 0; LNext 1; LMon (LAcquire 1); LMon (LBody 1 []); LLoad 0; LMon (LAcquire 0); LMon (LBody 0 []); LExec 0]).
+    vm_compute. reflexivity.
+  - vm_compute. reflexivity.
+Qed.
